@@ -68,6 +68,7 @@ class ClassContract:
     task_rely: Dict[str, List[Clause]] = field(default_factory=dict)
     task_inv: Dict[str, List[Clause]] = field(default_factory=dict)
     published_inv: List[Clause] = field(default_factory=list)
+    task_stable: Dict[str, List[str]] = field(default_factory=dict)
 
 
 @dataclass
@@ -119,6 +120,7 @@ class Registry:
         task_rely: Optional[Dict[str, List[ClauseSrc]]] = None,
         task_inv: Optional[Dict[str, List[ClauseSrc]]] = None,
         published_inv: Optional[List[ClauseSrc]] = None,
+        task_stable: Optional[Dict[str, List[str]]] = None,
     ) -> ClassContract:
         short = qualname.split(":")[1]
         c = ClassContract(
@@ -133,6 +135,7 @@ class Registry:
             task_rely={t: mk_clauses(f"{short}.rely[{t}]", cs, props) for t, cs in (task_rely or {}).items()},
             task_inv={t: mk_clauses(f"{short}.inv[{t}]", cs, props) for t, cs in (task_inv or {}).items()},
             published_inv=mk_clauses(f"{short}.published", published_inv, props),
+            task_stable=dict(task_stable or {}),
         )
         self.classes[qualname] = c
         return c
